@@ -5,6 +5,7 @@
    [frame_ok]: comp_ok).  The transport carries the bytes of the frames (C08); every supported stream
    transport is a net.Conn and is exercised by the correspondence check. *)
 From Coq Require Import List NArith Arith Bool.
+From RPCX Require Pool.PoolSites Pool.PoolSitesGen Pool.PoolSitesProofs.
 From RPCX Require Import Wire.Bytes Wire.Header Wire.Codec Wire.CodecSpec Wire.CodecRoundTrip Wire.StreamProofs
   Wire.EncodeProofs Wire.Shared Wire.SharedGen Wire.SharedGenProofs E2E.Path E2E.PathProofs E2E.Concurrent.
 Import ListNotations.
@@ -78,6 +79,15 @@ Example C09_nonvacuous :
     handler_view bytes ex_cdec req = (Some (repeat 5 1030), [([107], [118])]).
 Proof. eexists. split; [reflexivity|]. vm_compute. repeat split; reflexivity. Qed.
 
+(* Under concurrent use the decoded arguments of one request are not overwritten by another: on every control-flow
+   path of the two request handlers (regenerated from server/server.go on every run, tools/gopools2v) the pooled
+   argument and reply objects are used only while the request holds them and are returned to their pool at most once
+   (C20 states what that buys: no object is handed to two requests). *)
+Theorem C09_pooled_arguments_have_one_owner :
+  forallb (fun p => RPCX.Pool.PoolSites.disciplined 0 0 (snd p)) RPCX.Pool.PoolSitesGen.handler_paths = true.
+Proof. exact RPCX.Pool.PoolSitesProofs.every_path_is_disciplined. Qed.
+
 Print Assumptions C09_end_to_end.
 Print Assumptions C09_compression_is_invisible.
 Print Assumptions C09_concurrent_callers.
+Print Assumptions C09_pooled_arguments_have_one_owner.
